@@ -369,6 +369,15 @@ func topFrame(stack string) string {
 }
 
 func execStep(env *Env, task int, st *Step) Result {
+	if st.Repeat && st.Op != "render" && st.Op != "richtext" {
+		// geometry: the same call on the very same input objects, twice
+		a, b := buildPath(st.A), buildPath(st.B)
+		first := geometryOp(st, a, b)
+		if again := geometryOp(st, a, b); !again.Equal(first) {
+			first.RepeatDiff = fmt.Sprintf("first call: %s; second call on the same path objects: %s", first.Brief, again.Brief)
+		}
+		return first
+	}
 	switch st.Op {
 	case "and", "or", "xor", "not", "div":
 		a, b := buildPath(st.A), buildPath(st.B)
@@ -452,7 +461,14 @@ func execStep(env *Env, task int, st *Step) Result {
 				rt.WriteFace(other, w+" ")
 			}
 		}
-		return textResult(rt.ToText(st.Width, st.Height, halign[st.HAlign%4], valign[st.VAlign%4], 0, 0), env)
+		res := textResult(rt.ToText(st.Width, st.Height, halign[st.HAlign%4], valign[st.VAlign%4], 0, 0), env)
+		if st.Repeat {
+			// the same RichText object laid out a second time
+			if again := textResult(rt.ToText(st.Width, st.Height, halign[st.HAlign%4], valign[st.VAlign%4], 0, 0), env); !again.Equal(res) {
+				res.RepeatDiff = fmt.Sprintf("first ToText: %s; second ToText of the same RichText: %s", res.Brief, again.Brief)
+			}
+		}
+		return res
 
 	case "loadfont":
 		i := st.Font % len(env.Bytes)
@@ -550,6 +566,33 @@ func execStep(env *Env, task int, st *Step) Result {
 		return renderOnce(dr.c, dr.d, st)
 	}
 	panic("unknown op " + st.Op)
+}
+
+// geometryOp executes a geometry call on given path objects (used by the repeat oracle).
+func geometryOp(st *Step, a, b *canvas.Path) Result {
+	switch st.Op {
+	case "and":
+		return pathResult(a.And(b))
+	case "or":
+		return pathResult(a.Or(b))
+	case "xor":
+		return pathResult(a.Xor(b))
+	case "not":
+		return pathResult(a.Not(b))
+	case "div":
+		return pathResult(a.DivideBy(b))
+	case "settle":
+		return pathResult(a.Settle(fillRules[st.FillRule%4]))
+	case "stroke":
+		return pathResult(a.Stroke(st.W, cappers[st.Cap%3], joiners[st.Join%6], st.Tol))
+	case "offset":
+		return pathResult(a.Offset(st.W, st.Tol))
+	case "flatten":
+		return pathResult(a.Flatten(st.Tol))
+	case "dash":
+		return pathResult(a.Dash(st.Offset, st.Dashes...))
+	}
+	panic("no repeat for " + st.Op)
 }
 
 func stepFace(env *Env, st *Step) *canvas.FontFace {
